@@ -1,8 +1,9 @@
 (* C17 — proofs about the selection / glob / hierarchy model (Model.v). *)
-From Coq Require Import ZArith List Bool Arith Ascii String Lia.
+From Coq Require Import ZArith List Bool Arith Ascii String Lia Sorted.
 From OMV Require Import Base.Val C17.Model.
 Import ListNotations.
 Open Scope string_scope.
+Open Scope list_scope.
 
 (* ------------------------------------------------------------------ glob matcher vs its specification *)
 
@@ -228,26 +229,27 @@ Lemma starts_with_app a b : starts_with a (a ++ b) = true.
 Proof. induction a; cbn; auto. now rewrite Ascii.eqb_refl. Qed.
 
 Lemma starts_with_app_l p a b : starts_with a b = true -> starts_with (p ++ a) (p ++ b) = true.
-Proof. induction p; cbn; auto. intros. now rewrite Ascii.eqb_refl. Qed.
+Proof. induction p; cbn; auto. intros. rewrite Ascii.eqb_refl. cbn. auto. Qed.
 
 (* whole-component extension implies string extension (for every rendering of the counts) *)
+Lemma render_comps_cons n i r :
+  render_comps ((n, i) :: r) =
+  chars n ++ bar :: show i ++ match r with [] => [] | _ => bar :: render_comps r end.
+Proof. destruct r; cbn [render_comps]; [now rewrite app_nil_r | reflexivity]. Qed.
+
 Lemma comp_prefix_render : forall c d, c <> [] -> comp_prefix c d = true ->
   exists rest, render_comps d = render_comps c ++ rest.
 Proof.
   induction c as [| a c IH]; intros d Hne H; try contradiction.
   destruct d as [| b d]; try discriminate. cbn [comp_prefix] in H.
   apply andb_true_iff in H as [E H]. apply comp_eqb_eq in E. subst b.
-  destruct a as [n i]. destruct c as [| a' c].
-  - destruct d as [| b' d].
-    + exists []. now rewrite app_nil_r.
-    + exists (bar :: render_comps (b' :: d)).
-      cbn [render_comps]. destruct b'. rewrite <- !app_assoc. cbn. rewrite <- app_assoc. reflexivity.
+  destruct a as [n i]. rewrite !render_comps_cons.
+  destruct c as [| a' c].
+  - exists (match d with [] => [] | _ => bar :: render_comps d end).
+    rewrite app_nil_r. rewrite <- app_assoc. reflexivity.
   - destruct d as [| b' d]; try discriminate.
     destruct (IH (b' :: d)) as [rest Hr]; auto; try discriminate.
-    exists rest. cbn [render_comps] in *. destruct a', b'.
-    change (chars n ++ bar :: show i ++ bar :: render_comps ((s0, n1) :: d) =
-            (chars n ++ bar :: show i ++ bar :: render_comps ((s, n0) :: c)) ++ rest).
-    rewrite Hr. rewrite <- !app_assoc. cbn. rewrite <- !app_assoc. reflexivity.
+    exists rest. rewrite Hr. rewrite <- !app_assoc. cbn [app]. rewrite <- !app_assoc. reflexivity.
 Qed.
 
 Lemma comp_prefix_starts pre c d : c <> [] -> comp_prefix c d = true ->
@@ -265,8 +267,8 @@ Theorem descendants_exact : forall pre cases i c,
   hier_ok_at pre cases i = true ->
   descendants_code pre cases i = descendants_spec cases i.
 Proof.
-  intros pre cases i c Hn Hne H. unfold descendants_code, descendants_spec, hier_ok_at in *.
-  rewrite Hn in *. apply filter_ext_in'. intros j Hj.
+  intros pre cases i c Hn Hne H. unfold descendants_code, descendants_spec. unfold hier_ok_at in H.
+  unfold coord in *. rewrite Hn in H. rewrite Hn. apply filter_ext_in'. intros j Hj.
   rewrite forallb_forall in H. specialize (H j Hj). cbn zeta in H.
   destruct (comp_prefix c (nth j cases [])) eqn:P.
   - now apply comp_prefix_starts.
@@ -293,10 +295,10 @@ Proof. induction s; cbn; auto. now rewrite Ascii.eqb_refl. Qed.
 Theorem descendants_order : forall pre cases i c,
   nth_error cases i = Some c ->
   StronglySorted lt (descendants_code pre cases i) /\
-  (forall j, In j (descendants_code pre cases i) -> j <= i) /\
+  (forall j, In j (descendants_code pre cases i) -> (j <= i)%nat) /\
   In i (descendants_code pre cases i).
 Proof.
-  intros pre cases i c Hn. unfold descendants_code. rewrite Hn. repeat split.
+  intros pre cases i c Hn. unfold descendants_code. unfold coord in *. rewrite Hn. repeat split.
   - apply filter_seq_sorted.
   - intros j Hj. apply filter_In in Hj as [Hj _]. apply in_seq in Hj. lia.
   - apply filter_In. split.
@@ -317,12 +319,12 @@ Proof. vm_compute. reflexivity. Qed.
 (* string prefix is not component prefix once counts reach 10: the bound by the parent's counter is what
    keeps the reader's query right, and hier_ok is what is checked on real recordings *)
 Example startswith_not_component :
-  starts_with (render "rank0:" [("Driver", 1)]) (render "rank0:" [("Driver", 10); ("root._solve_nonlinear", 10)]) = true /\
-  comp_prefix [("Driver", 1)] [("Driver", 10); ("root._solve_nonlinear", 10)] = false.
+  starts_with (render "rank0:" [("Driver", 1%nat)]) (render "rank0:" [("Driver", 10%nat); ("root._solve_nonlinear", 10%nat)]) = true /\
+  comp_prefix [("Driver", 1%nat)] [("Driver", 10%nat); ("root._solve_nonlinear", 10%nat)] = false.
 Proof. vm_compute. split; reflexivity. Qed.
 
 Example hier_ok_example :
-  hier_ok "rank0:" [[("Driver", 0); ("root", 0)]; [("Driver", 0)]; [("Driver", 1); ("root", 1)]; [("Driver", 1)];
-                    [("Driver", 10); ("root", 10)]; [("Driver", 10)]] = true /\
-  hier_ok "rank0:" [[("Driver", 10); ("root", 10)]; [("Driver", 10)]; [("Driver", 1); ("root", 1)]; [("Driver", 1)]] = false.
+  hier_ok "rank0:" [[("Driver", 0%nat); ("root", 0%nat)]; [("Driver", 0%nat)]; [("Driver", 1%nat); ("root", 1%nat)]; [("Driver", 1%nat)];
+                    [("Driver", 10%nat); ("root", 10%nat)]; [("Driver", 10%nat)]] = true /\
+  hier_ok "rank0:" [[("Driver", 10%nat); ("root", 10%nat)]; [("Driver", 10%nat)]; [("Driver", 1%nat); ("root", 1%nat)]; [("Driver", 1%nat)]] = false.
 Proof. vm_compute. split; reflexivity. Qed.
